@@ -1457,6 +1457,8 @@ class LinAnalysis:
                 if op == "/":
                     return q
                 return a - q.scale(b.c)
+            if len(b.t) == 1 and b.c == 0 and list(b.t.values()) == [1] and st.entails(a) and st.entails(b) and not st.entails(b - Lin.const(1)):
+                st.add(b - Lin.const(1))       # a division by zero is no defined execution: behind it the divisor is at least 1
             if len(b.t) == 1 and b.c == 0 and list(b.t.values()) == [1] and st.entails(a) and st.entails(b - Lin.const(1)):
                 # quotient by a symbol p: remember the product m = q*p with m <= a <= m + p - 1
                 psym = list(b.t)[0]
